@@ -22,7 +22,8 @@ from fractions import Fraction as F
 import numpy as np
 
 PROP = 'C03'
-TARGETS = ['T2', 'T3', 'TC03pyr', 'TC03stack', 'TC03segvol', 'TC03imgvol', 'TC03wireV', 'TC03wireI', 'TC03wireS', 'TC03single', 'TC03getitem', 'TC03volpos', 'TC03rot', 'TC03loop', 'TC03idxval', 'TC03dist']
+TARGETS = ['T2', 'T3', 'TC03pyr', 'TC03stack', 'TC03segvol', 'TC03imgvol', 'TC03wireV', 'TC03wireI', 'TC03wireS', 'TC03single', 'TC03getitem', 'TC03volpos', 'TC03rot', 'TC03loop', 'TC03idxval', 'TC03dist',
+           'T7b', 'T7g', 'TC10f']          # read-only: regenerated for C12 / C10, used by the tile bridge `tiles_use_the_source`
 LEAN_MODULES = ['HdVerif.Props.C03']
 MODEL_MODULES = ['HdVerif.Model.SegGeom', 'HdVerif.Model.SegFrameLoop']
 NAMESPACE = 'HdVerif.C03'
@@ -835,7 +836,7 @@ def frames_l1(ctx, descr, seg, all_pos, iop, lab, cha, arr, nseg, seg_type, exac
                                    'flags': [bool(np.asarray(arr[k]).any()) for k in range(n0)], 'omit': bool(descr['omit']),
                                    'labelmap': seg_type == 'LABELMAP'}))
         pending.append((dict(descr, what='stored frames: segment, position, DimensionIndexValues in stored order', layer='L1',
-                             model_drop=['plane']), ('ok', full)))
+                             model_drop=['plane', 'pos_plane']), ('ok', full)))
     return full
 
 
